@@ -48,6 +48,7 @@ func c08R1(c *Ctx) {
 		return
 	}
 	info := fn.Info()
+	batchFn := p.Func(nodeCtlPkg, "batchSize") // the rule names it: stays a function in the view
 	n := 0
 	for _, fam := range []struct{ fld, capF, mapF string }{{"addIPv4N", "IPv4PerAdapter", "IPv4"}, {"addIPv6N", "IPv6PerAdapter", "IPv6"}} {
 		fv := p.Field(nodeCtlPkg, "eniOptions", fam.fld)
@@ -66,7 +67,8 @@ func c08R1(c *Ctx) {
 			hasBatch, hasCap, hasLeft := false, false, false
 			var leftObj types.Object
 			for _, a := range mc.Args {
-				if call, ok := ast.Unparen(a).(*ast.CallExpr); ok && calleeName(info, call) == "batchSize" {
+				// the batch bound: the value of batchSize(ctx), directly or through a local
+				if call, ok := ast.Unparen(derefExpr(fn, a)).(*ast.CallExpr); ok && batchFn != nil && Callee(info, call) == batchFn.Obj {
 					hasBatch = true
 				}
 				if fvv := fieldOf(info, a); fvv != nil && fvv.Name() == fam.capF {
@@ -909,9 +911,19 @@ func c08R11(c *Ctx) {
 		c.Unres("C08.R11", "getAllocatable / IdlesWithAvailable", "not found")
 		return
 	}
+	var collect func(fn *FuncInfo, set map[string]bool, depth int)
 	lits := func(fn *FuncInfo) []string {
-		info := fn.Info()
 		set := map[string]bool{}
+		collect(fn, set, 0)
+		var out []string
+		for k := range set {
+			out = append(out, k)
+		}
+		sort.Strings(out)
+		return out
+	}
+	collect = func(fn *FuncInfo, set map[string]bool, depth int) {
+		info := fn.Info()
 		isIPField := func(x ast.Expr) (string, bool) {
 			sel, ok := ast.Unparen(x).(*ast.SelectorExpr)
 			if !ok {
@@ -956,15 +968,16 @@ func c08R11(c *Ctx) {
 				if f, ok := isIPField(t.Cond); ok {
 					set[f] = true
 				}
+			case *ast.Ident:
+				// a predicate of the same package, called or handed to an iterator: its tests count
+				if f, ok := info.Uses[t].(*types.Func); ok && depth < 2 {
+					if fi := p.FuncOf(f); fi != nil && fi.Pkg == fn.Pkg && fi != fn {
+						collect(fi, set, depth+1)
+					}
+				}
 			}
 			return true
 		})
-		var out []string
-		for k := range set {
-			out = append(out, k)
-		}
-		sort.Strings(out)
-		return out
 	}
 	la, lb := lits(a), lits(b)
 	c.Check(len(la) > 0 && strings.Join(la, " ∧ ") == strings.Join(lb, " ∧ "), "C08.R11", "getAllocatable and IdlesWithAvailable test an address alike", p.Pos(a.Decl), a.Key(),
